@@ -81,9 +81,9 @@ theorem seg_res' (toks : List Tok) {res : Str} (hs : safeBareArg res = true) (re
 
 theorem tokens_render {ep res : Str} (hep : ep = [] ∨ safeBareArg ep = true)
     (hres : res = [] ∨ safeBareArg res = true) :
-    tokens (renderMgmt ep res) =
+    tokens (renderMgmtRaw ep res) =
       some ([.word "mgmt".toList, .lbrace] ++ epToks ep ++ resToks res ++ tailToks) := by
-  unfold tokens renderMgmt epToks resToks
+  unfold tokens renderMgmtRaw epToks resToks
   rcases hep with rfl | hep <;> rcases hres with rfl | hres
   · simp only [List.isEmpty_nil, if_true, List.append_nil]
     rw [seg_head', seg_tail]; rfl
@@ -99,7 +99,7 @@ theorem tokens_render {ep res : Str} (hep : ep = [] ∨ safeBareArg ep = true)
 /-- The file the mgmt template produces for lexically safe (or absent) endpoint and resolver values
 has exactly the intended directives with the values as single arguments. -/
 theorem mgmtConfOK_render {ep res : Str} (hep : ep = [] ∨ safeBareArg ep = true)
-    (hres : res = [] ∨ safeBareArg res = true) : mgmtConfOK (renderMgmt ep res) ep res = true := by
+    (hres : res = [] ∨ safeBareArg res = true) : mgmtConfOK (renderMgmtRaw ep res) ep res = true := by
   unfold mgmtConfOK parseConf
   rw [tokens_render hep hres]
   unfold epToks resToks tailToks
@@ -111,5 +111,28 @@ theorem mgmtConfOK_render {ep res : Str} (hep : ep = [] ∨ safeBareArg ep = tru
     simp [directives]
   · simp only [safe_not_empty hep, safe_not_empty hres, Bool.false_eq_true, if_false]
     simp [directives]
+
+theorem nginxAddr_safe {v : Str} (h : v = [] ∨ safeBareArg v = true) :
+    nginxAddr v = [] ∨ safeBareArg (nginxAddr v) = true := by
+  unfold nginxAddr
+  split
+  · right
+    rcases h with rfl | h
+    · rename_i hc; simp at hc
+    · simp only [safeBareArg, Bool.and_eq_true, Bool.not_eq_true', List.all_eq_true] at h ⊢
+      refine ⟨rfl, ?_⟩
+      intro c hc
+      simp only [List.mem_cons, List.mem_append, List.not_mem_nil, or_false] at hc
+      rcases hc with rfl | m | rfl
+      · decide
+      · exact h.2 c m
+      · decide
+  · exact h
+
+/-- the file `generateMgmtFiles` produces (values through `nginxAddr`) has exactly the intended directives -/
+theorem mgmtConfOK_generated {ep res : Str} (hep : ep = [] ∨ safeBareArg ep = true)
+    (hres : res = [] ∨ safeBareArg res = true) :
+    mgmtConfOK (renderMgmt ep res) (nginxAddr ep) (nginxAddr res) = true :=
+  mgmtConfOK_render (nginxAddr_safe hep) (nginxAddr_safe hres)
 
 end NGF.Cli
